@@ -46,6 +46,21 @@ def run_w2c2(w2c2, wd, data, opts, refdata=None, timeout=120, name='m'):
     return classify(r.returncode, r.stderr.decode(errors='replace'))
 
 
+def reference_variants(data):
+    """reference modules for -r built from the module itself by the binary rewriter: a NOP appended to the first / every second / every function body"""
+    import wasmparse as wp
+    out = []
+    for label, pick in (('first-body-changed', lambda k: k == 0), ('every-second-body-changed', lambda k: k % 2 == 1), ('all-bodies-changed', lambda k: True)):
+        hdr, secs = wp.parse(data)
+        for s in secs:
+            if s.id == 10:
+                for k, body in enumerate(t for t in s.sized.children if isinstance(t, wp.Sized)):
+                    if pick(k):
+                        body.children.insert(len(body.children) - 1, wp.Raw(b'\x01'))       # nop before the final end
+        out.append((label, wp.emit(hdr, secs)))
+    return out
+
+
 def option_sets(tier, full=False):
     if full:
         sets = []
@@ -111,13 +126,14 @@ def size_modules():
 
 
 def work_valid(job):
-    name, data, optsets, w2c2 = job
+    name, data, optsets, w2c2 = job[:4]
+    refdata = job[4] if len(job) > 4 else None
     wd = tempfile.mkdtemp(prefix='c10.', dir='/dev/shm')
     res = []
     try:
         for o in optsets:
             shutil.rmtree(os.path.join(wd, 'out'), ignore_errors=True)
-            kind, msg = run_w2c2(w2c2, wd, data, o)
+            kind, msg = run_w2c2(w2c2, wd, data, o, refdata=refdata)
             res.append((o, kind, msg))
     finally:
         shutil.rmtree(wd, ignore_errors=True)
@@ -175,6 +191,13 @@ def main(tier):
     for n, d in hb:
         for part in chunks(full if tier == 'thorough' else full[::6], 24):
             jobs.append((n, d, part, w2c2))
+    # -r with a reference module that shares all / some / none of the function bodies (the static and dynamic lists are then
+    # shorter than the module) x split output
+    import wasmparse as wp2
+    for n, d in hb:
+        for rlabel, rd in reference_variants(d):
+            osets = [['-r', 'REF', '-f', str(f), '-t', str(t)] + extra for f in (0, 1, 2) for t in (1, 3) for extra in ([], ['-g'], ['-c'])]
+            jobs.append(('%s with reference %s' % (n, rlabel), d, osets if tier == 'thorough' else osets[::2], w2c2, rd))
     positions = ('export', 'import-module', 'import-field', 'name-section', 'partial-name-section', 'import-global')
     for nm in NAME_ALPHABET:
         for pos in positions:
@@ -185,7 +208,8 @@ def main(tier):
         results = list(ex.map(work_valid, jobs, chunksize=1))
     classes = {}
     nvalid = 0
-    for (name, data, optsets, _), res in zip(jobs, results):
+    for jb, res in zip(jobs, results):
+        name, data, optsets = jb[:3]
         for o, kind, msg in res:
             nvalid += 1
             classes[kind] = classes.get(kind, 0) + 1
@@ -201,7 +225,7 @@ def main(tier):
     chk.add(evaluations=nvalid)
     # ---------------- (b) truncation points
     pjobs = []
-    pcorp = spec + hb if tier == 'thorough' else spec[::6] + hb[:1]
+    pcorp = spec + hb if tier == 'thorough' else spec[::6] + hb
     pcorp += [('name-section', name_module(b'abc', 'name-section'))]
     nprefix = 0
     for n, d in pcorp:
@@ -255,7 +279,7 @@ def main(tier):
     chk.cov['prefix_runs'] = nprefix
     chk.cov['prefix_run_classes'] = pclasses
     chk.cov['rule'] = ('(a) every valid module of the corpus (spec-suite modules, hand-built, name-stress: 20 names x 4 positions, size-stress: 5) x option sets '
-                       '(8 representative sets each; the full 384-element option product on the hand-built modules) must exit 0 without signal or sanitizer report; '
+                       '(8 representative sets each; the full 384-element option product on the hand-built modules; the hand-built modules with -r references that share all / some / no function bodies x split output) must exit 0 without signal or sanitizer report; '
                        '(b) fault points = every proper prefix 0<k<len of every module <= 4 KiB (boundary +-2 for larger), modules with a name section also under -g (thorough: + -g -f 1 -t 2, -g -p -m), and every proper prefix used as the -r REFERENCE module next to the complete module: terminates, no sanitizer report, no '
                        'SIGSEGV/SIGBUS/SIGFPE/SIGILL; own abort()/assert on a truncated file is tolerated and counted. distinct_nontrivial = (module, k) whose '
                        'termination class or diagnostic differs from that of prefix k-1, plus distinct (module, option-set-group) jobs')
